@@ -43,7 +43,7 @@ def run(tier):
                         return 'sanitizer report'
                     injected = bool(c['inv'] & 64)
                     if c['inv'] & ~(64 | (4 if True else 0)) & ~4:
-                        return 'scheduler counter invariant broken (%d)' % c['inv']
+                        return 'invariant broken: ' + sched.inv_text(c['inv'] & ~(64 | 4), c.get('note', ''))
                     if not injected:
                         if c['kind'] == 'exit' and c['code'] == 0 and c['stdout_len'] == len(exp) and c['stdout_hash'] == common.fnv64(exp) and not c['stderr_len']:
                             return None
